@@ -630,4 +630,18 @@ theorem entry_call_closure_panic_safe {R : Nat} (m : Map) (k kid : Nat) (raw ins
     simp only [Option.map_some] at habs
     cases inserting <;> simp [← habs]
 
+/-- **A panicking `Eq` changes nothing**: whichever of `insert`, `remove`, `get`, `get_mut`, `entry(k).or_insert(v)`
+    it interrupts, the map afterwards is the map before — every element still there, found, with the value it had —
+    and the only objects dropped are the ones the caller passed by value (none for the lookups and `remove`). -/
+theorem eq_panic_safe {R : Nat} (c : Cfg) (kind : Nat) (m : Map) (e : Entry) (o : Orc) (h : Inv R m) :
+    ∃ out, Map.eqFused c kind m e true o = .ok (m, out, true) ∧ Inv R m ∧
+      out.returned = [] ∧ out.cost.allocs = 0 ∧ out.cost.moved = 0 ∧
+      (out.cost.dropped = e.ids ∨ out.cost.dropped = []) ∧
+      (idsOf m.ents ++ out.returned ++ out.cost.dropped).Perm (idsOf m.ents ++ (if kind = 0 ∨ kind = 3 then e.ids else [])) := by
+  unfold Map.eqFused
+  simp only [if_true]
+  refine ⟨_, rfl, h, rfl, rfl, rfl, ?_, ?_⟩
+  · by_cases hk : kind = 0 ∨ kind = 3 <;> simp [hk]
+  · simp
+
 end Griddle.C07
